@@ -4,6 +4,7 @@ CreateSidecar+Flush / LoadOrCreateSidecarWithFallback on every single-bit flip a
 sidecars and on garbage; resumed end-to-end transfers from every tampered state with tree comparison."""
 import json
 import os
+from checks import resumegen
 
 LEVEL = "proof"
 
@@ -155,16 +156,21 @@ def run(ctx):
         else:
             # a loud failure is allowed by the property, but not for states the code is meant to handle
             ctx.oblige(f"tamper:{c['name']}:completes", False, f"sender_err={r.get('sender_err')} recv_err={r.get('recv_err')}")
+    # 5. the resume negotiation itself: generated reports answered by a scripted receiver, chunks that travel vs Model/Resume
+    n_plan, d_plan, plan_stats = resumegen.run(ctx, xfer, "C06")
     ctx.coverage.update({
-        "evaluations": len(ser_cases) + len(parse_cases) + len(load_cases) + len(cases),
+        "resume_reports": n_plan, "resume_report_outcomes": plan_stats,
+        "evaluations": len(ser_cases) + len(parse_cases) + len(load_cases) + len(cases) + n_plan,
         "distinct_nontrivial": len(parse_in) + len(cases),
         "rule": "sidecars from the real CreateSidecar/Flush over (chunk in {1,7,32,64,4096}) x (total 0..70, byte-boundary totals) x random bitmaps and ids; EVERY single-bit flip and EVERY truncation of the small ones, "
                 "sampled flips/truncations of the others, trailing bytes, random garbage, magic+version prefixes -> LoadSidecar vs model; identity rule with each field changed; "
                 "resumed end-to-end transfers (netsim and mock, 1-3 streams, both root modes) from: legit partial, highest chunk damaged, all complete + last damaged, data file deleted / shortened, "
-                "foreign chunk size (also one giving the same chunk count) / file size / id, bit-flipped and truncated sidecar (data file full of garbage so that any trusted bit shows)",
+                "foreign chunk size (also one giving the same chunk count) / file size / id, bit-flipped and truncated sidecar (data file full of garbage so that any trusted bit shows); "
+                "resume reports (every bitmap shape on 1-8 chunks x hash good/bad/unknown in the CLI configuration; random bitmaps on 1-33 chunks x tail 0..total+2 x verify modes x hash algorithms x "
+                "reported last-verified chunk (true or arbitrary) x hash good/bad/unknown/zero) answered by a scripted receiver to the real sender: multiset of chunk frames that travel and planned-skip count vs Model/Resume",
         "samples": [ser_cases[0], parse_cases[3][:100], load_cases[1][:120], cases[0]["name"]],
         "accepted_sidecars": accepted, "tamper_kinds": kinds, "tamper_runs_mutual_success": n_ok,
-        "disagreements_model_vs_impl": len(d0) + len(d1) + len(d2),
+        "disagreements_model_vs_impl": len(d0) + len(d1) + len(d2) + d_plan,
     })
     ctx.assumptions += ["CRC32C is executed, not reasoned about: rejection of flipped/truncated sidecars is checked exhaustively per generated sidecar, not proved",
                         "power loss is not modelled (no fsync in the code); 'torn last chunk' is a damaged highest chunk with intact metadata"]
